@@ -228,26 +228,7 @@ func ruleC17(c *Ctx) {
 			c.Check(len(probs) == 0 && len(words) == 1 && words[0] == want, ct.Name+"."+m+"/size", P.pos(ct.M[m].Pos()), m+" transfers exactly "+want, fmt.Sprintf("%s transfers %v, the type needs exactly %s", m, words, want))
 		}
 	}
-	// every bit pattern decodes: a float codec's Read fails only by passing on an error of the read it
-	// performs, never by judging the value (NaN payloads, infinities, denormals are all legal)
-	c.Rule("FL-TOTAL", "a float codec's Read rejects no value: its only error returns pass on the error of the underlying read", 3)
-	for _, ct := range bt.Codecs {
-		if !strings.HasPrefix(ct.Name, "avro.floatCodec[") && ct.Name != "avro.Float32DoubleCodec" {
-			continue
-		}
-		fn := ct.M["Read"]
-		bad := ""
-		for _, r := range returnsOf(fn) {
-			ev := errOperand(r)
-			if ev == nil || isNilConst(ev) {
-				continue
-			}
-			if isFreshError(ev) {
-				bad = "Read constructs an error of its own at " + P.pos(r.Pos()) + ": some bit patterns of the value are rejected"
-			}
-		}
-		c.Check(bad == "", ct.Name+".Read/total", P.pos(fn.Pos()), "no value-dependent failure", bad)
-	}
+	ruleFLTotal(c)
 	c.Rule("SZ-FLOAT", "", 0)
 	if ct := bt.byType["avro.Float32DoubleCodec"]; ct != nil {
 		// Read: float32(f) store; Write: float64(*(*float32)(p)) into the 8-byte temp
@@ -403,6 +384,43 @@ func ruleVarStd(c *Ctx) {
 
 // ---------- DST-FRESH (C01, C03, C10)
 
+// isEntryValue: v is the result of the New call nw, or that result replaced, where it is nil, by a fresh
+// allocation from the read buffer or its bank made in the same turn of the loop l (nil: anywhere in the
+// function, which is then the per-entry helper).
+func isEntryValue(v ssa.Value, nw *ssa.Call, l *Loop) bool {
+	if v == ssa.Value(nw) {
+		return true
+	}
+	phi, ok := v.(*ssa.Phi)
+	if !ok {
+		return false
+	}
+	sawNew := false
+	for _, e := range phi.Edges {
+		if e == ssa.Value(nw) {
+			sawNew = true
+			continue
+		}
+		call, isCall := e.(*ssa.Call)
+		if !isCall {
+			return false
+		}
+		g := call.Call.StaticCallee()
+		if g == nil || g.Name() != "Alloc" || g.Signature.Recv() == nil {
+			return false
+		}
+		switch typeKey(derefType(g.Signature.Recv().Type())) {
+		case "avro.ReadBuf", "avro.ResourceBank":
+		default:
+			return false
+		}
+		if l != nil && !l.Blocks[call.Block()] {
+			return false
+		}
+	}
+	return sawNew
+}
+
 func ruleDstFresh(c *Ctx) {
 	c.Rule("DST-FRESH", "every element of a collection is decoded into storage of its own: a map value allocated for that entry, an array slot indexed by the length as incremented for that item", 3)
 	P := c.P
@@ -453,7 +471,7 @@ func ruleDstFresh(c *Ctx) {
 				found = true
 				l := innermostLoop(fn, cs.Block)
 				okH = hnw != nil && l != nil && oncePerIteration(fn, l, cs.Instr) &&
-					hrd.Call.Args[1] == ssa.Value(hnw) && hasg.Call.Args[3] == ssa.Value(hnw) &&
+					isEntryValue(hrd.Call.Args[1], hnw, nil) && hasg.Call.Args[3] == hrd.Call.Args[1] &&
 					recvPathOfValue(h, hnw.Call.Value, 0) == recvPathOfValue(h, hrd.Call.Value, 0) &&
 					innermostLoop(h, hnw.Block()) == nil && dominatesInstr(hnw, hrd) && dominatesInstr(hrd, hasg)
 				c.Check(okH, key, P.pos(cs.Instr.Pos()), "the per-entry helper is called once per entry; in it valueCodec.New(r) runs once and its result is what is decoded into and assigned", "the value decoded into is not allocated once per map entry: entries whose codec does not overwrite everything (nulls, pointers, slices, nested maps) inherit or share the previous entry's value")
@@ -463,7 +481,7 @@ func ruleDstFresh(c *Ctx) {
 			}
 		} else {
 			l := innermostLoop(fn, rd.Block())
-			ok := nw != nil && l != nil && rd.Call.Args[1] == ssa.Value(nw) && assign.Call.Args[3] == ssa.Value(nw) &&
+			ok := nw != nil && l != nil && isEntryValue(rd.Call.Args[1], nw, l) && assign.Call.Args[3] == rd.Call.Args[1] &&
 				recvPathOfValue(fn, nw.Call.Value, 0) == recvPathOfValue(fn, rd.Call.Value, 0) &&
 				l.Blocks[nw.Block()] && oncePerIteration(fn, l, nw) && oncePerIteration(fn, l, rd) && oncePerIteration(fn, l, assign)
 			c.Check(ok, key, P.pos(rd.Pos()), "valueCodec.New(r) is called once per entry, in the entry loop, and its result is what is decoded into and assigned", "the value decoded into is not allocated once per map entry: entries whose codec does not overwrite everything (nulls, pointers, slices, nested maps) inherit or share the previous entry's value")
@@ -765,8 +783,31 @@ func ruleArrBound(c *Ctx) {
 // ---------- RC-VARINT (C17)
 
 func ruleRCVarint(c *Ctx) {
-	c.Rule("RC-VARINT", "a varint is accepted only within ten bytes, and a tenth byte only if it contributes a single bit (no 64-bit overflow)", 1)
 	P := c.P
+	// decided by folding when the fold of the decoder went through for every buffer length (UV-FOLD): the shape
+	// reading below is then only a second spelling of the same clause, and a brittle one
+	if _, done := uvFoldLast[P]; !done {
+		sub := newCtx(P, c.Property, c.Tier)
+		ruleUVFold(sub)
+	}
+	if v := uvFoldLast[P]; len(v) == 11 {
+		all, bad := true, ""
+		for n := 1; n <= 11; n++ {
+			if strings.HasPrefix(v[n], "?") {
+				all = false
+			} else if v[n] != "" && bad == "" {
+				bad = v[n]
+			}
+		}
+		if all {
+			c.Rule("RC-VARINT", "a varint is accepted only within ten bytes, and a tenth byte only if it contributes a single bit (no 64-bit overflow)", 1)
+			rbT := P.NamedType(P.Avro, "ReadBuf")
+			vfn := P.Method(rbT, "Varint")
+			c.Check(bad == "", fnKey(vfn)+"/accept", P.pos(vfn.Pos()), "decided by folding the decoder on buffers of 1 to 11 named bytes (UV-FOLD): ten bytes at most, the tenth 0 or 1", bad)
+			return
+		}
+	}
+	c.Rule("RC-VARINT", "a varint is accepted only within ten bytes, and a tenth byte only if it contributes a single bit (no 64-bit overflow)", 1)
 	rbT := P.NamedType(P.Avro, "ReadBuf")
 	vfn := P.Method(rbT, "Varint")
 	if !c.Anchor(vfn != nil, "(*ReadBuf).Varint") {
@@ -1227,5 +1268,31 @@ func arrElementStores(c *Ctx, P *Program, fn *ssa.Function, key string, rd *ssa.
 			}
 		}
 		c.Check(bad == "" && nUse > 0, key+"/element-stores", P.pos(rd.Pos()), "pointers into the slice's element storage are used only as the destination of the item codec's Read (one element, the element type's stride)", "elements are written other than one at a time by the item codec: "+bad+": the bytes written need not match the element type's size")
+	}
+}
+
+// ruleFLTotal: FL-TOTAL (C17, C01, C03).
+func ruleFLTotal(c *Ctx) {
+	P := c.P
+	bt := getBT(P)
+	// every bit pattern decodes: a float codec's Read fails only by passing on an error of the read it
+	// performs, never by judging the value (NaN payloads, infinities, denormals are all legal)
+	c.Rule("FL-TOTAL", "a float codec's Read rejects no value: its only error returns pass on the error of the underlying read", 3)
+	for _, ct := range bt.Codecs {
+		if !strings.HasPrefix(ct.Name, "avro.floatCodec[") && ct.Name != "avro.Float32DoubleCodec" {
+			continue
+		}
+		fn := ct.M["Read"]
+		bad := ""
+		for _, r := range returnsOf(fn) {
+			ev := errOperand(r)
+			if ev == nil || isNilConst(ev) {
+				continue
+			}
+			if isFreshError(ev) {
+				bad = "Read constructs an error of its own at " + P.pos(r.Pos()) + ": some bit patterns of the value are rejected"
+			}
+		}
+		c.Check(bad == "", ct.Name+".Read/total", P.pos(fn.Pos()), "no value-dependent failure", bad)
 	}
 }
